@@ -7,8 +7,15 @@ Rec == ndJsonDeserialize(IOEnv.TRACE)
 VARIABLE l
 tvars == <<l, rules, expr, alive, last, hist>>
 Bound == 15000        \* ms
+\* hb / ha: fingerprint of get_preference over every known name before / after the call ("" when not recorded).  Only
+\* set_preference and set_rules_dir (which reads prefs.yaml) may change it: "an error leaves the session as it was" and "a valid
+\* expression after it behaves as in a fresh session" both fail when some other call leaves a preference changed behind.
+\* (navigation writes its mode back: NavMode is not among the names that are read for the fingerprint)
+\* (before a rules directory is accepted the first call of any kind makes the API defaults appear: not judged)
+PrefsKept(e) == ~rules \/ e.call \in {"set_preference", "set_rules_dir"} \/ e.hb = "" \/ e.ha = "" \/ e.hb = e.ha
 Reason(e) == IF e.res \notin {"ok", "err"} THEN "no-answer-" \o e.res
-             ELSE IF e.ms > Bound THEN "too-slow" ELSE "ok"
+             ELSE IF e.ms > Bound THEN "too-slow"
+             ELSE IF ~PrefsKept(e) THEN "call-left-a-preference-changed" ELSE "ok"
 TInit == l = 1 /\ rules = FALSE /\ expr = FALSE /\ alive = TRUE /\ last = [call |-> <<"init", "-">>, res |-> "ok"] /\ hist = <<>>
 TNext == /\ l <= Len(Rec)
          /\ LET e == Rec[l] c == <<e.call, e.cls>> IN
